@@ -18,7 +18,7 @@
    (2) [c17_thread_protocol]: for every thread, between invocation and return of each of its
        calls (in program order) there is exactly one effect event, carrying the arguments of
        that call; no event of a thread that is not inside a call changes the word. *)
-From Got Require Import Base Atomics AtomicsProofs MutexWord MutexWordProofs MutexExclProofs.
+From Got Require Import Base Atomics AtomicsProofs MutexWord MutexWordProofs MutexExclProofs MutexAcctProofs.
 Local Open Scope Z_scope.
 
 (* ---------------------------------------------------------------- Flag / AddIf64 *)
@@ -150,11 +150,12 @@ Print Assumptions c17_trylock_call_spec.
 (* PARTIAL in this sense: Lock / Unlock of sync.Mutex are runtime code without yield points; they
    are re-modelled from the Go 1.23 source (fast path, lockSlow with the spin branch that sets
    mutexWoken, normal and starvation mode, hand-off AddInt32, unlockSlow, the semaphore as a
-   token counter; spin / 1 ms decisions as per-call oracle bits) and NOT stepped against the
-   implementation.  TryLock's three steps in that model are the record-level image of
+   token counter; the runtime_canSpin answers and the 1 ms tests as per-call oracle numbers:
+   any number of spin iterations, the threshold found exceeded from any wake-up on) and NOT
+   stepped against the implementation.  TryLock's three steps in that model are the record-level image of
    mx_trylock_step, the function that IS stepped against loom/mutex.go
-   (the c17_trylock_rec_refines theorems).  throw/fatal are dead ends of the model (not proved unreachable:
-   that needs the waiter-count accounting, which exclusion does not).
+   (the c17_trylock_rec_refines theorems).  throw/fatal are dead ends of the model; they are
+   unreachable (c17_mutex_no_inconsistent_state below).
 
    Over every set of programs of Lock (any oracle bits) / TryLock / Unlock and every schedule:
    the number of threads between a successful acquire -- by the Lock fast path, the lockSlow
@@ -204,12 +205,12 @@ Print Assumptions c17_trylock_rec_refines_cas2.
    too long, switches the mutex to starvation mode, and gets the lock by hand-off (XEAcq 2);
    the word ends as 0 with no token left. *)
 Example c17_exclusion_nonvacuous :
-  let progs := [[XTryLock; XUnlock]; [XLock true true; XUnlock]; [XLock false false; XUnlock]] in
+  let progs := [[XTryLock; XUnlock]; [XLock 1 0; XUnlock]; [XLock 0 9; XUnlock]] in
   let sched := [0;0; 1;1;1;1;1; 2;2;2;2; 0;0;0;0;0; 2;2;2;2;2;2; 1;1;1;1;1;1; 2;2;2;2;2;2;2; 1;1;1;1;1;1]%nat in
   let tr := mx_trace (mx_init progs) sched in
   nth_error tr 1 = Some (0%nat, XEAcq 3) /\ nth_error tr 18 = Some (2%nat, XEAcq 1) /\
   nth_error tr 37 = Some (1%nat, XEAcq 1) /\ nth_error tr 22 = Some (1%nat, XEBlocked) /\
-  let progs2 := [[XLock false false; XUnlock; XLock false false; XUnlock]; [XLock false true; XUnlock]] in
+  let progs2 := [[XLock 0 9; XUnlock; XLock 0 9; XUnlock]; [XLock 0 0; XUnlock]] in
   let sched2 := [0;0; 1;1;1;1; 0;0;0;0; 0;0;0;0; 1;1;1; 0;0;0; 1;1;1; 1;1]%nat in
   map snd (mx_trace (mx_init progs2) sched2) =
     [XEInv; XEAcq 0; XEInv; XEInt; XEInt; XEInt; XEInv; XEUnlocked; XEInt; XERet; XEInv; XEInt; XEInt;
@@ -223,6 +224,161 @@ Proof.
   split; [vm_compute; reflexivity|].
   split; [vm_compute; reflexivity|].
   split; vm_compute; reflexivity.
+Qed.
+
+(* ---------------------------------------------------------------- no throw / fatal: waiter-count accounting *)
+
+(* Programs: any list of Lock (any oracle numbers) / TryLock / Unlock per thread, where an
+   Unlock is executed only by a thread that holds the mutex (the model's XUnlock of a thread
+   whose last Lock/TryLock did not succeed -- TryLock returned false -- is skipped, event
+   XESkip: this is "if m.TryLock() { ...; m.Unlock() }" and "m.Lock(); ...; m.Unlock()").
+   That is the only well-formedness there is, and it is built into the step function, so the
+   theorems quantify over ALL program lists, all oracle numbers and all schedules.
+
+   c17_mutex_no_inconsistent_state: in no reachable state is any thread at the dead pc, and no
+   step of any run is the panic event.  The dead pc stands for
+     - lockSlow's throw("sync: inconsistent mutex state") before the CAS (awoke but the
+       snapshot has mutexWoken clear),
+     - lockSlow's throw after a wake-up in starvation mode (old&(mutexLocked|mutexWoken) != 0 or
+       no waiter),
+     - a hand-off AddInt32 on a word where the addition would not be field-wise (locked set,
+       no waiter, or starving clear when mutexStarving is subtracted),
+     - Unlock's fatal("sync: unlock of unlocked mutex"). *)
+Theorem c17_mutex_no_inconsistent_state :
+  forall progs sched,
+    let s := mx_final (mx_init progs) sched in
+    Forall (fun th => xpc th <> XDead) (xthreads s) /\
+    Forall (fun e => snd e <> XEPanic) (mx_trace (mx_init progs) sched).
+Proof. exact mx_no_inconsistent_state. Qed.
+Print Assumptions c17_mutex_no_inconsistent_state.
+
+(* The accounting invariant behind it, on every reachable state.  mx_cnt f s = number of
+   threads of weight 1:  mx_wQ at XLSleep (inside runtime_SemacquireMutex or about to call it),
+   mx_wW at XLWoke (acquired a token, has not yet re-read the word), mx_wS awake in lockSlow with
+   awoke = true, mx_wP at XURel false (unlockSlow's CAS done, Semrelease pending), mx_wG at XLHand
+   (about to do the hand-off AddInt32), mx_wD = mx_wG + pending hand-off Semrelease; xsema = tokens
+   (Semrelease calls not yet consumed).
+   Normal mode: waiters = sleepers that no Unlock has yet paid for (each unlockSlow CAS decrements
+   the field and owes one token to one sleeper); mutexWoken bounds the tokens + owed tokens + woken
+   or spinning-awoke threads by one.
+   Starvation mode: waiters = sleepers + the woken waiter up to and including its hand-off
+   AddInt32 (which is what decrements the field), mutexWoken is clear, at most one hand-off is
+   in flight and none while the mutex is locked. *)
+Theorem c17_mutex_waiter_accounting :
+  forall progs sched,
+    let s := mx_final (mx_init progs) sched in
+    let w := xword s in
+    (xs w = false ->
+       (xn w + xsema s + mx_cnt mx_wP s = mx_cnt mx_wQ s)%nat /\ mx_cnt mx_wD s = 0%nat /\
+       (xsema s + mx_cnt mx_wP s + mx_cnt mx_wW s + mx_cnt mx_wS s <= mx_b2n (xk w))%nat) /\
+    (xs w = true ->
+       (xn w = mx_cnt mx_wQ s + mx_cnt mx_wW s + mx_cnt mx_wG s)%nat /\ xk w = false /\
+       mx_cnt mx_wP s = 0%nat /\ mx_cnt mx_wS s = 0%nat /\
+       (xsema s + mx_cnt mx_wW s + mx_cnt mx_wD s <= 1)%nat /\
+       (xl w = true -> (xsema s + mx_cnt mx_wW s + mx_cnt mx_wD s = 0)%nat)).
+Proof. exact mx_waiter_accounting. Qed.
+Print Assumptions c17_mutex_waiter_accounting.
+
+(* strengthening of c17_handoff_wellformed: the hand-off atomic.AddInt32(&m.state, delta),
+   delta = mutexLocked - 1<<mutexWaiterShift [- mutexStarving], always meets a word with
+   locked = 0, woken = 0, starving = 1 and waiters >= 1; the step acquires, and the new word of the
+   model (field-wise: locked set, one waiter less, starving cleared if e) is the integer sum *)
+Theorem c17_handoff_wellformed_strong :
+  forall progs sched i th e,
+    let s := mx_final (mx_init progs) sched in
+    nth_error (xthreads s) i = Some th -> xpc th = XLHand e ->
+    xl (xword s) = false /\ xk (xword s) = false /\ xs (xword s) = true /\ (1 <= xn (xword s))%nat /\
+    snd (mx_step s i) = XEAcq 2 /\
+    mx_enc (xword (fst (mx_step s i))) = mx_enc (xword s) + (1 - 8 - (if e then 4 else 0)).
+Proof. exact mx_handoff_wellformed_strong. Qed.
+Print Assumptions c17_handoff_wellformed_strong.
+
+(* a successful TryLock CAS (how = 3: CAS(0, mutexLocked); how = 4: CAS(old, old|mutexLocked) after
+   the load) from ANY word and token count: the word had locked = woken = starving = 0, the step
+   sets the locked bit and nothing else (waiters, tokens unchanged), the thread has no weight
+   in the accounting before or after, so the accounting relation mx_K (the word/token part of
+   the invariant, for whatever counts the other threads contribute) is preserved; the lock is
+   then released by the same Unlock steps as one taken by Lock, which by
+   c17_mutex_no_inconsistent_state never hit fatal/throw *)
+Theorem c17_trylock_acquire_accounting :
+  forall r t th r' t' th' how,
+    mx_lok th -> mx_step_th r t th = (r', t', th', XEAcq how) -> how = 3%nat \/ how = 4%nat ->
+    xl r = false /\ xk r = false /\ xs r = false /\ r' = mx_set_l r true /\ t' = t /\
+    (mx_wQ th = 0 /\ mx_wW th = 0 /\ mx_wP th = 0 /\ mx_wD th = 0 /\ mx_wR th = 0 /\ mx_wS th = 0)%nat /\
+    (mx_wQ th' = 0 /\ mx_wW th' = 0 /\ mx_wP th' = 0 /\ mx_wD th' = 0 /\ mx_wR th' = 0 /\ mx_wS th' = 0)%nat /\
+    (forall Q W P D R, mx_K r t Q W P D R -> mx_K r' t' Q W P D R).
+Proof. exact mx_trylock_acquire_accounting. Qed.
+Print Assumptions c17_trylock_acquire_accounting.
+
+(* the waiter field never exceeds the number of threads; so with fewer than 2^28 threads the word
+   of every reachable state is a non-negative int32 -- the model's unbounded field arithmetic
+   is int32 arithmetic, and c17_count_truthful applies to every word Count can load *)
+Theorem c17_mutex_word_is_int32 :
+  forall progs sched,
+    Z.of_nat (length progs) < 2 ^ 28 ->
+    mx_valid_word (mx_enc (xword (mx_final (mx_init progs) sched))).
+Proof. exact mx_word_valid. Qed.
+Print Assumptions c17_mutex_word_is_int32.
+
+Theorem c17_mutex_waiters_le_threads :
+  forall progs sched, (xn (xword (mx_final (mx_init progs) sched)) <= length progs)%nat.
+Proof. exact mx_waiters_le_threads. Qed.
+Print Assumptions c17_mutex_waiters_le_threads.
+
+(* statement sanity check: the dead-end branches of the step function are real -- from
+   (unreachable) states each one is taken: awoke without mutexWoken; starvation wake-up on a locked
+   word; on a word without waiters; hand-off addition on a locked word; Unlock of an unlocked word *)
+Example c17_dead_ends_exist :
+  snd (mx_step_th {| xl := true; xk := false; xs := false; xn := 0 |} 0
+         (mx_mkth (XLCas 0 0 true false {| xl := true; xk := false; xs := false; xn := 0 |}) false [])) = XEPanic /\
+  snd (mx_step_th {| xl := true; xk := false; xs := true; xn := 1 |} 0 (mx_mkth (XLWoke 0 0 true) false [])) = XEPanic /\
+  snd (mx_step_th {| xl := false; xk := false; xs := true; xn := 0 |} 0 (mx_mkth (XLWoke 0 0 true) false [])) = XEPanic /\
+  snd (mx_step_th {| xl := true; xk := false; xs := true; xn := 1 |} 0 (mx_mkth (XLHand true) false [])) = XEPanic /\
+  snd (mx_step_th {| xl := false; xk := false; xs := false; xn := 1 |} 0 (mx_mkth XU1 true [])) = XEPanic.
+Proof. exact mx_dead_ends_exist. Qed.
+
+(* non-vacuity.  Run A: TryLock takes the mutex by its second CAS while a Lock caller is queued
+   (word: 1 waiter, unlocked, the previous holder between its AddInt32(-1) and unlockSlow's
+   CAS), the previous holder's unlockSlow gets out of the way, the TryLock holder's Unlock wakes
+   the waiter, who acquires; everything ends idle on the zero word.
+   Run B (oracle starve = 1): a waiter is woken twice in normal mode and loses both races; at
+   the second wake-up it has waited > 1 ms, switches to starvation mode (state: locked,
+   starving, 1 waiter, it sleeps again), and gets the lock by hand-off.
+   Run C (oracle spin = 2): a spinning Lock caller sets mutexWoken by the spin CAS, spins once
+   more, queues (clearing mutexWoken: 2 waiters), and both waiters are later woken in turn. *)
+Example c17_accounting_nonvacuous :
+  let progsA := [[XLock 0 9; XUnlock]; [XLock 0 9; XUnlock]; [XTryLock; XUnlock]] in
+  let schedA := [0;0; 1;1;1;1; 0;0; 2;2;2;2; 0;0; 2;2;2;2; 1;1;1; 1;1]%nat in
+  mx_trace (mx_init progsA) schedA =
+    [(0, XEInv); (0, XEAcq 0); (1, XEInv); (1, XEInt); (1, XEInt); (1, XEInt); (0, XEInv); (0, XEUnlocked);
+     (2, XEInv); (2, XEInt); (2, XEInt); (2, XEAcq 4); (0, XEInt); (0, XERet); (2, XEInv); (2, XEUnlocked);
+     (2, XEInt); (2, XERet); (1, XEInt); (1, XEInt); (1, XEAcq 1); (1, XEInv); (1, XEUnlocked)]%nat /\
+  xword (mx_final (mx_init progsA) (firstn 12 schedA)) = {| xl := true; xk := false; xs := false; xn := 1 |} /\
+  (let s := mx_final (mx_init progsA) schedA in
+   xword s = mx_zero /\ xsema s = 0%nat /\ map xpc (xthreads s) = [XIdle; XIdle; XIdle]) /\
+  let progsB := [[XLock 0 9; XUnlock; XLock 0 9; XUnlock; XLock 0 9; XUnlock]; [XLock 0 1; XUnlock]] in
+  let schedB := [0;0; 1;1;1;1; 0;0;0;0; 0;0;0;0; 1;1;1; 0;0;0;0; 0;0;0;0; 1;1;1; 0;0;0; 1;1;1; 1;1]%nat in
+  map snd (mx_trace (mx_init progsB) schedB) =
+    [XEInv; XEAcq 0; XEInv; XEInt; XEInt; XEInt; XEInv; XEUnlocked; XEInt; XERet; XEInv; XEInt; XEInt; XEAcq 1;
+     XEInt; XEInt; XEInt; XEInv; XEUnlocked; XEInt; XERet; XEInv; XEInt; XEInt; XEAcq 1; XEInt; XEInt; XEInt;
+     XEInv; XEUnlocked; XERet; XEInt; XEInt; XEAcq 2; XEInv; XEUnlocked] /\
+  (let s := mx_final (mx_init progsB) (firstn 28 schedB) in
+   xword s = {| xl := true; xk := false; xs := true; xn := 1 |} /\
+   map xpc (xthreads s) = [XIdle; XLSleep 0 0 true]) /\
+  xword (mx_final (mx_init progsB) schedB) = mx_zero /\
+  let progsC := [[XLock 0 9; XUnlock]; [XLock 0 9; XUnlock]; [XLock 2 9; XUnlock]] in
+  let schedC := [0;0; 1;1;1;1; 2;2;2;2;2;2;2; 0;0;0;0; 2;2;2; 2;2;2;2; 1;1;1;1;1]%nat in
+  (let s := mx_final (mx_init progsC) (firstn 10 schedC) in
+   xword s = {| xl := true; xk := true; xs := false; xn := 1 |} /\
+   map xpc (xthreads s) = [XIdle; XLSleep 0 9 false; XLLoad 1 9 true false]) /\
+  xword (mx_final (mx_init progsC) (firstn 13 schedC)) = {| xl := true; xk := false; xs := false; xn := 2 |} /\
+  map snd (mx_trace (mx_init progsC) schedC) =
+    [XEInv; XEAcq 0; XEInv; XEInt; XEInt; XEInt; XEInv; XEInt; XEInt; XEInt; XEInt; XEInt; XEInt; XEInv;
+     XEUnlocked; XEInt; XERet; XEInt; XEInt; XEAcq 1; XEInv; XEUnlocked; XEInt; XERet; XEInt; XEInt; XEAcq 1;
+     XEInv; XEUnlocked] /\
+  xword (mx_final (mx_init progsC) schedC) = mx_zero.
+Proof.
+  cbn zeta. repeat split; vm_compute; reflexivity.
 Qed.
 
 (* ---------------------------------------------------------------- non-vacuity *)
